@@ -37,7 +37,7 @@ def check(model: Model, run: Run) -> None:
     from collections import Counter
     called = Counter()
     for cq in model.subclasses(f"{FILTER}.LDAPFilter", strict=True):
-        strm = model.classes[cq].methods.get("__str__")
+        strm = model.find_method(cq, "__str__")
         bfs = set(bytes_fields(model, cq))
         if strm is None or not bfs:
             continue
@@ -90,7 +90,7 @@ def check(model: Model, run: Run) -> None:
         bfs = bytes_fields(model, cq)
         if not bfs:
             continue
-        strm = model.classes[cq].methods.get("__str__")
+        strm = model.find_method(cq, "__str__")
         if strm is None:
             run.ob("J1-sanitiser-routing", False)
             run.fail(Finding("J1-sanitiser-routing", cq, "no __str__", "a value-carrying filter class has no __str__ of its own", model.loc(FILTER, model.classes[cq].node)))
@@ -454,7 +454,7 @@ def serialisers_are_pure(model: Model, run: Run) -> None:
     n = 0
     targets = []
     for cq in model.subclasses(f"{FILTER}.LDAPFilter"):
-        m_ = model.classes[cq].methods.get("__str__")
+        m_ = model.find_method(cq, "__str__")
         if m_ is not None:
             targets.append(m_)
     for fi in targets:
@@ -660,13 +660,13 @@ def operator_agreement(model: Model, run: Run) -> None:
     n = 0
     for cq in model.subclasses(f"{FILTER}.LDAPFilter", strict=True):
         c = model.classes[cq]
-        strm = c.methods.get("__str__")
+        strm = model.find_method(cq, "__str__")
         if strm is None:
             continue
         rets = [r for r in walk_no_nested(strm.node) if isinstance(r, ast.Return) and r.value is not None]
         if len(rets) != 1:
             continue
-        tpl = str_template(model, strm, rets[0].value)
+        tpl = str_template(model, strm, rets[0].value, 0, cq)
         if tpl is None:
             continue
         consts = [(i, p_) for i, p_ in enumerate(tpl) if p_ is not None]
@@ -700,13 +700,25 @@ def operator_agreement(model: Model, run: Run) -> None:
     run.floor("filter classes with an operator in both tables", n, 8)
 
 
-def str_template(model: Model, fi, e: ast.expr, depth: int = 0):
+def str_template(model: Model, fi, e: ast.expr, depth: int = 0, cls_q: Optional[str] = None):
     """The text shape an expression produces: a list of constant chunks (str) and holes (None).  f-strings directly; a call to a
     module-level helper whose body is `return f"..."` with its parameters replaced by the arguments (constant arguments stay
     constant).  None when the expression is something else."""
     parts = None
     if isinstance(e, ast.JoinedStr):
-        parts = [p.value if isinstance(p, ast.Constant) and isinstance(p.value, str) else None for p in e.values]
+        parts = []
+        for p in e.values:
+            if isinstance(p, ast.Constant) and isinstance(p.value, str):
+                parts.append(p.value)
+                continue
+            # {self.<NAME>} where NAME is a string constant of the concrete class (an operator / symbol kept as a class attribute)
+            v = p.value if isinstance(p, ast.FormattedValue) and p.format_spec is None and p.conversion == -1 else None
+            if cls_q and isinstance(v, ast.Attribute) and isinstance(v.value, ast.Name) and v.value.id in ("self", "cls"):
+                cc = model.class_const(cls_q, v.attr)
+                if cc is not None and isinstance(cc[1], ast.Constant) and isinstance(cc[1].value, str):
+                    parts.append(cc[1].value)
+                    continue
+            parts.append(None)
     elif isinstance(e, ast.Call) and isinstance(e.func, ast.Name) and depth < 3:
         q = model.resolve_name(fi.module, e.func.id)
         hf = model.functions.get(q) if q else None
